@@ -145,7 +145,7 @@ def _emit(groups):
     return res
 
 
-@rule("QUANT-LOWER", ["C20", "C01", "C06", "C08"], floor=12)
+@rule("QUANT-LOWER", ["C20", "C01", "C06", "C08", "C16"], floor=12)
 def quant_lower(ctx):
     """piece(): the (min,max) handed to a repetition operator are those of the quantifier just read
     (? 0,1  * 0,inf  + 1,inf  {n,m} n,m); a nullable body may lower min to 0 but never drop a finite max;
@@ -206,7 +206,7 @@ def quant_lower(ctx):
             g[need] = [False, "piece() has no path for the case %s" % need, b.loc()]
     out = _emit(g)
     for i_ in out:
-        i_.props = ["C06", "C01", "C20"] if i_.key == "nullable-count-not-iterated" else ["C20", "C01", "C08"]
+        i_.props = ["C06", "C01", "C20", "C16"] if i_.key == "nullable-count-not-iterated" else ["C20", "C01", "C08"]
     return out
 
 
